@@ -54,8 +54,7 @@ uint32_t fbits(float f) {
   return u;
 }
 
-int run_param_set(const Params &P, mc::Ctx &ctx, bool expert_only) {
-  int executions = 0;
+std::vector<GeomDef> build_family(const Params &P) {
   std::vector<float> A[3];
   for (int c = 0; c < 3; ++c) A[c] = alphabet(P.origin[c], P.range, P.bits);
   // point family D: 9 "diagonal" points + 9 mixed points
@@ -109,6 +108,12 @@ int run_param_set(const Params &P, mc::Ctx &ctx, bool expert_only) {
         h.atts[0].entries.push_back(bytes_of(pt(9 + (i + j + k) % 9)));
         geoms.push_back(h);
       }
+  return geoms;
+}
+
+int run_param_set(const Params &P, mc::Ctx &ctx, bool expert_only) {
+  int executions = 0;
+  std::vector<GeomDef> geoms = build_family(P);
   Table table;
   const std::vector<float> origin(P.origin, P.origin + 3);
   char pb[160];
@@ -240,7 +245,197 @@ int run_param_set(const Params &P, mc::Ctx &ctx, bool expert_only) {
 
 }  // namespace
 
+// ---------------------------------------------------------------- C04 end to end (--x-c04)
+// Same geometry family, every method x speed x API, quantization requested either with the automatic range or with the
+// explicit box; oracle = the property's half-step bound against the SOURCE value, in long double.
+long double ulp32(long double m) {
+  float f = (float)m;
+  if (f == 0) return 1.4e-45L;
+  float n = std::nextafter(std::fabs(f), INFINITY);
+  return (long double)n - (long double)std::fabs(f);
+}
+int run_c04_set(const Params &P, mc::Ctx &ctx) {
+  int executions = 0;
+  std::vector<GeomDef> geoms = build_family(P);
+  char pb[160];
+  snprintf(pb, sizeof pb, "box origin=(%.9g,%.9g,%.9g) range=%.9g bits=%d", P.origin[0], P.origin[1], P.origin[2], P.range, P.bits);
+  const std::string ptxt = pb;
+  const std::vector<float> origin(P.origin, P.origin + 3);
+  for (const GeomDef &g : geoms) {
+    std::unique_ptr<Mesh> mesh;
+    std::unique_ptr<PointCloud> cloud;
+    if (g.is_mesh) mesh = build_mesh(g);
+    else cloud = build_cloud(g);
+    const PointCloud &src = g.is_mesh ? *mesh : *cloud;
+    // source values and extents
+    std::vector<std::array<float, 3>> srcv;
+    for (auto &e : g.atts[0].entries) {
+      std::array<float, 3> v;
+      memcpy(v.data(), e.data(), 12);
+      srcv.push_back(v);
+    }
+    long double mn[3], mx[3], R = 0, mag = 0;
+    for (int k = 0; k < 3; ++k) {
+      mn[k] = mx[k] = srcv[0][k];
+      for (auto &v : srcv) {
+        mn[k] = std::min<long double>(mn[k], v[k]);
+        mx[k] = std::max<long double>(mx[k], v[k]);
+      }
+      R = std::max(R, mx[k] - mn[k]);
+      mag = std::max(mag, std::max(fabsl(mn[k]), fabsl(mx[k])));
+    }
+    for (int automatic = 0; automatic < 2; ++automatic)
+      for (int method = 0; method < 2; ++method)
+        for (int speed : {0, 5, 10}) {
+          // The property speaks of magnitudes 1e-6..1e9: an automatic range that is non-zero but below 1e-12 (e.g. two
+          // points one denormal apart) is outside its domain (the float32 step computation overflows there).
+          if (automatic && R > 0 && R < 1e-12L) {
+            ctx.count("automatic_range_below_1e-12_out_of_domain");
+            continue;
+          }
+          EncCfg c;
+          c.method = method;
+          if (g.is_mesh && method == 1) c.eb_method = speed == 0 ? MESH_EDGEBREAKER_VALENCE_ENCODING : MESH_EDGEBREAKER_STANDARD_ENCODING;
+          c.speed_enc = c.speed_dec = speed;
+          c.qbits = {P.bits};
+          if (!automatic) c.explicit_q[0] = {origin, P.range};
+          c.use_plain_encoder = speed == 5;
+          EncResult enc;
+          {
+            const uint64_t refused_before = mc::alloc_env().refused;
+            try {
+              enc = encode(g, src, mesh.get(), c);
+            } catch (const std::bad_alloc &) {
+              if (mc::alloc_env().refused == refused_before) throw;
+              ctx.count("encoder_request_above_harness_cap");
+              ++executions;
+              continue;
+            }
+          }
+          ++executions;
+          ctx.count("encode_calls");
+          if (!enc.ok) {
+            ctx.count("encode_reported_failure");
+            continue;
+          }
+          DecResult dec = decode(enc.bytes);
+          if (!dec.ok) {
+            ctx.count("decode_failed_(C01_matter)");
+            continue;
+          }
+          ctx.count("decode_ok");
+          const PointAttribute *pa = dec.pc->GetNamedAttribute(GeometryAttribute::POSITION);
+          if (!pa || pa->data_type() != DT_FLOAT32 || pa->num_components() != 3) continue;
+          // the range the property speaks of: the configured one, or the largest per-component extent
+          const long double range = automatic ? R : (long double)P.range;
+          const long double step = range > 0 ? range / (powl(2.0L, P.bits) - 1.0L) : 0;
+          const long double box_mag = automatic ? mag : std::max(mag, fabsl((long double)P.origin[0]) + P.range);
+          const long double allow = step / 2 + 4 * ulp32(std::max(box_mag, (long double)1e-30L));
+          std::vector<std::array<float, 3>> decv;
+          for (PointIndex p(0); p < dec.pc->num_points(); ++p) {
+            std::array<float, 3> v;
+            pa->GetMappedValue(p, v.data());
+            decv.push_back(v);
+          }
+          const bool ordered = gs::stream_method(enc.bytes) == 0 && decv.size() == srcv.size();
+          for (size_t i = 0; i < srcv.size(); ++i) {
+            long double best = 1e300L;
+            size_t bj = 0;
+            for (size_t j = 0; j < decv.size(); ++j) {
+              if (ordered && j != i) continue;
+              long double dmax = 0;
+              for (int k = 0; k < 3; ++k) dmax = std::max(dmax, fabsl((long double)decv[j][k] - (long double)srcv[i][k]));
+              if (dmax < best) {
+                best = dmax;
+                bj = j;
+              }
+            }
+            ctx.count("values_compared", 3);
+            if (decv.empty() || best > allow) {
+              // Edgebreaker may drop points that no triangle uses - every point of this family is used
+              char b[300];
+              snprintf(b, sizeof b, "source (%.9g,%.9g,%.9g): nearest decoded (%.9g,%.9g,%.9g), error %.6Lg > half step %.6Lg + 4 ulp (allowance %.6Lg), %s range %.9Lg",
+                       srcv[i][0], srcv[i][1], srcv[i][2], decv.empty() ? 0.f : decv[bj][0], decv.empty() ? 0.f : decv[bj][1],
+                       decv.empty() ? 0.f : decv[bj][2], best, step / 2, allow, automatic ? "automatic" : "explicit", range);
+              ctx.fail(std::string("e2e:error-exceeds-half-step|") + (automatic ? "automatic-range" : "explicit-range") + "|" +
+                           (g.is_mesh ? (method ? "edgebreaker" : "mesh-sequential") : (method ? "kd-tree" : "cloud-sequential")),
+                       std::string(b) + " :: " + ptxt + " " + text(g) + " " + text(c));
+              break;
+            }
+          }
+          // decoded values never leave the box by more than one step + allowance
+          for (auto &v : decv)
+            for (int k = 0; k < 3; ++k) {
+              const long double lo = automatic ? mn[k] : (long double)P.origin[k], hi = lo + (automatic ? range : (long double)P.range);
+              if ((long double)v[k] < lo - step - allow || (long double)v[k] > hi + step + allow) {
+                ctx.fail(std::string("e2e:decoded-value-leaves-box|") + (automatic ? "automatic-range" : "explicit-range"), ptxt + " " + text(g) + " " + text(c));
+                k = 3;
+                break;
+              }
+            }
+          ctx.count("executions_compared");
+        }
+  }
+  return executions;
+}
+
 int main(int argc, char **argv) {
+  bool c04 = false;
+  for (int i = 1; i < argc; ++i) c04 = c04 || std::string(argv[i]) == "--x-c04";
+  if (c04) {
+    mc::Runner R(argc, argv, "C04");
+    R.level = "model_checking";
+    R.rule =
+        "end to end: for each of (6 origins x 6 ranges x bits {1,2,8,11,16,24,30}) the whole geometry family over a 9-value per-axis "
+        "alphabet inside the box x {automatic range, explicit box} x {sequential, kd-tree / Edgebreaker} x speeds {0,5,10} (ExpertEncoder, "
+        "draco::Encoder at speed 5); non-trivial = every execution compared";
+    R.explanation =
+        "oracle = the property's statement against the SOURCE values in long double: |decoded - x| <= R/(2^q-1)/2 + 4 ulp with R the largest "
+        "per-component extent (automatic) or the configured range (explicit); decoded values stay inside the box +- one step";
+    R.assumptions = {"decoded points are matched to source points by order (sequential) or nearest value (kd-tree, Edgebreaker)"};
+    R.transition_counters = {"encode_calls", "decode_ok"};
+    const bool quick_only_some = !R.thorough();
+    std::vector<Params> all;
+    const int bits[] = {1, 2, 8, 11, 16, 24, 30};
+    for (auto &o : kOrigins)
+      for (float r : kRanges)
+        for (int b : bits) {
+          Params p;
+          memcpy(p.origin, o, 12);
+          p.range = r;
+          p.bits = b;
+          all.push_back(p);
+        }
+    (void)quick_only_some;
+    auto addc = [&](const std::string &name, std::vector<Params> ps, bool quick, bool thorough) {
+      mc::Space s;
+      s.name = name;
+      s.size = ps.size();
+      s.quick = quick;
+      s.thorough = thorough;
+      s.timeout_s = 180;
+      s.cases_per_index = (18 + 324 + 84 + 84) * 2 * 2 * 3;
+      auto P = std::make_shared<std::vector<Params>>(ps);
+      s.run = [=](uint64_t idx, mc::Ctx &ctx) {
+        const int n = run_c04_set((*P)[idx], ctx);
+        for (int i = 0; i < n; ++i) ctx.nontrivial_unique();
+      };
+      s.describe = [=](uint64_t idx) {
+        const Params &p = (*P)[idx];
+        char b[200];
+        snprintf(b, sizeof b, "origin=(%.9g,%.9g,%.9g) range=%.9g bits=%d x geometry family x automatic/explicit x methods x speeds", p.origin[0],
+                 p.origin[1], p.origin[2], p.range, p.bits);
+        return std::string(b);
+      };
+      R.add(s);
+    };
+    std::vector<Params> sub;
+    for (size_t i = 0; i < all.size(); i += 3) sub.push_back(all[i]);
+    addc("e2e_params_every3rd", sub, true, false);
+    addc("e2e_params_all", all, false, true);
+    R.require("executions_compared", 1000);
+    return R.main();
+  }
   mc::Runner R(argc, argv, "C12");
   R.level = "model_checking";
   const bool asan = R.flag("asan");
